@@ -187,6 +187,16 @@ type c17CLICase struct {
 	Cmd  int    `json:"cmd"`  // index into c10CLICmds
 	Sink string `json:"sink"` // "devfull-inprocess" | "devfull-binary" | "closed-pipe-binary"
 	Big  bool   `json:"big"`  // report larger than the stdout buffer
+	Days int    `json:"days,omitempty"` // explicit number of log days (medium-sized reports: larger than the file-size limit, smaller than the buffer)
+}
+
+func c17FilesN(days int) (string, string) {
+	var lb strings.Builder
+	bb := "meal:\n  x: 2\n  y: -3\nmeal2:\n  meal: 2\n  x: 1\n"
+	for i := 0; i < days; i++ {
+		lb.WriteString(fmt.Sprintf("%s:\n  meal: %d\n  meal2: 1\n  unknown/food: 2\n  x: 1\n", vFmtDay(i, ""), i%7+1))
+	}
+	return vWriteFile("c17-log.yaml", lb.String()), vWriteFile("c17-book.yaml", bb)
 }
 
 func c17Files(big bool) (string, string) {
@@ -211,6 +221,9 @@ func c17Files(big bool) (string, string) {
 func checkC17CLI(c c17CLICase, ctx *vCtx) *vFailure {
 	cmd := c10CLICmds[c.Cmd]
 	lp, bp := c17Files(c.Big)
+	if c.Days > 0 {
+		lp, bp = c17FilesN(c.Days)
+	}
 	args := make([]string, len(cmd.args))
 	for i, a := range cmd.args {
 		args[i] = strings.ReplaceAll(strings.ReplaceAll(a, "@LOG@", lp), "@BOOK@", bp)
@@ -241,7 +254,7 @@ func checkC17CLI(c c17CLICase, ctx *vCtx) *vFailure {
 		}
 		failed, detail = r.Failed, r.Err
 	case "regular-file-size-limit":
-		if len(r.Stdout) <= 1024 {
+		if len(r.Stdout) <= 600 {
 			ctx.Label("report-fits-the-limit")
 			return nil // nothing is refused: not a fault case
 		}
@@ -330,6 +343,10 @@ func c17CLISpace() []c17CLICase {
 			}
 		}
 		out = append(out, c17CLICase{Cmd: ci, Sink: "regular-file-size-limit", Big: true})
+		for _, days := range []int{8, 15, 25, 40} { // reports of roughly 0.5 - 4 KiB: the refusal is first seen by the final flush
+			out = append(out, c17CLICase{Cmd: ci, Sink: "regular-file-size-limit", Days: days})
+			out = append(out, c17CLICase{Cmd: ci, Sink: "devfull-binary", Days: days})
+		}
 	}
 	return out
 }
